@@ -72,6 +72,11 @@ enum Flavor {
 /// Cycles of one transaction with a single always_success input group, as reported by the pool
 /// (measured on the first such entry seen in this process; 0 = not seen yet).
 static UNIT_CYCLES: AtomicU64 = AtomicU64::new(0);
+/// Number of dumped pool entries (this process) whose ancestor aggregates had size 0 and cycles 0,
+/// i.e. an ancestor weight of zero: with such keys `AncestorsScoreSortKey::cmp` is not transitive
+/// (a 0/0 fee rate compares equal to every rate), which is the precondition of the listed
+/// `invalid key` panic of the pool's multi-index map.
+static ZERO_ANCESTOR_WEIGHT_SEEN: AtomicU64 = AtomicU64::new(0);
 /// Value used before the first measurement (always_success in this tree).
 const UNIT_CYCLES_DEFAULT: u64 = 539;
 
@@ -218,10 +223,15 @@ pub fn run(args: &Args) -> i32 {
         let panics = hooks::take_panics();
         for p in panics {
             let file = p.location.rsplit('/').next().unwrap_or("").split(':').next().unwrap_or("").to_string();
+            // cause (listed finding): the pool's score index was built over keys that are not
+            // totally ordered; the harness has seen such keys in this process' dumps
+            let zero_w = ZERO_ANCESTOR_WEIGHT_SEEN.load(Ordering::Relaxed);
+            let cause = if p.message.contains("invalid key") && file == "pool_map.rs" && zero_w > 0 { "@pool_held_entries_with_zero_ancestor_weight" } else { "" };
             r.c11.violation(
-                &format!("node_thread_panicked@{}:{}:{}", p.thread, file, p.message.chars().take(60).collect::<String>()),
+                // worker threads of the node's runtime are numbered (GlobalRt-13): the number is not part of what failed
+                &format!("node_thread_panicked@{}:{}:{}", p.thread.trim_end_matches(|c: char| c.is_ascii_digit()).trim_end_matches('-'), file, format!("{}{}", p.message.chars().take(60).collect::<String>(), cause)),
                 format!("thread '{}' panicked at {}: {}", p.thread, p.location, p.message),
-                json!({"session": si, "in_repo_frames": p.frames}),
+                json!({"session": si, "in_repo_frames": p.frames, "dumped_entries_with_zero_ancestor_weight_so_far": zero_w}),
             );
         }
     }
@@ -1222,6 +1232,10 @@ impl Sess {
             if us > 0 || uc > 0 {
                 let known_cause = !cause.is_empty();
                 under_now.push((e.id.clone(), us, uc, known_cause));
+            }
+            if e.ancestors.1 == 0 && e.ancestors.2 == 0 {
+                ZERO_ANCESTOR_WEIGHT_SEEN.fetch_add(1, Ordering::Relaxed);
+                r.c11.count("obs.entries_with_zero_ancestor_weight");
             }
             if e.ancestors != wa {
                 r.c11.violation(&format!("aggregates.ancestors_differ_from_recomputation{cause}"), format!("{}: pool says (count,size,cycles,fee)={:?}, recomputed over its links {:?}", id_hex(&e.id), e.ancestors, wa), w(json!({"entry": id_hex(&e.id)})));
